@@ -23,7 +23,8 @@ ASSUMPTIONS = ["the sampler's draw distribution is exactly the arguments of its 
 def pair_cases(draw, tier="quick"):
     kind = draw(st.sampled_from(["gaussian_cov", "gaussian_prec", "gmrf"]))
     c = {"kind": kind, "interface": draw(st.sampled_from(["experimental", "legacy"])), "route": draw(st.sampled_from(["joint", "joint", "direct"])),
-         "shape": draw(gen.logpos(-1, 1)), "rate": draw(gen.logpos(-2, 1)), "seed": draw(st.integers(0, 10 ** 6))}
+         "shape": draw(gen.logpos(-1, 1)), "rate": draw(gen.logpos(-2, 1)), "seed": draw(st.integers(0, 10 ** 6)),
+         "retarget": draw(st.sampled_from([False, False, True]))}
     if kind == "gmrf":
         pd = draw(st.sampled_from([1, 1, 2]))
         n = draw(st.integers(3, 12)) if pd == 1 else draw(st.integers(2, 4))
@@ -106,7 +107,24 @@ def run_pair(c, rec):
         return
     target = must(lambda: build_pair(c), "building the conjugate posterior")
     require(type(target).__name__ == "Posterior", "harness: expected a Posterior", got=type(target).__name__)
-    if c["interface"] == "experimental":
+    if c["interface"] == "experimental" and c.get("retarget"):
+        # the sampler object is first used on another posterior of the same structure (other data, other latent value, other
+        # Gamma prior) and then handed the target - the way HybridGibbs re-uses one sampler object per block
+        c1 = dict(c, shape=c["shape"] * 2.0, rate=c["rate"] * 3.0, x=[0.5 * v + 0.3 for v in c["x"]])
+        if "data" in c:
+            c1["data"] = [v + 1.0 for v in c["data"][::-1]]
+        other = must(lambda: build_pair(c1), "building the conjugate posterior")
+        s0 = cuqi.experimental.mcmc.Conjugate(other)
+        s0.initialize()
+        with patched_global(ScriptedRNG(fallback_seed=c["seed"] + 1, record_only=True)):
+            s0.step()
+        rec.count("retargeted")
+
+        def run():
+            s0.target = target
+            s0.step()
+            return s0.current_point
+    elif c["interface"] == "experimental":
         def run():
             s = cuqi.experimental.mcmc.Conjugate(target)
             s.initialize()
@@ -187,7 +205,24 @@ def run_reject(c, rec):
     if refused:
         rec.count("posterior_construction_refused")
         return
-    if c["interface"] == "experimental":
+    if c["interface"] == "experimental" and c.get("retarget"):
+        # the sampler object is first used on another posterior of the same structure (other data, other latent value, other
+        # Gamma prior) and then handed the target - the way HybridGibbs re-uses one sampler object per block
+        c1 = dict(c, shape=c["shape"] * 2.0, rate=c["rate"] * 3.0, x=[0.5 * v + 0.3 for v in c["x"]])
+        if "data" in c:
+            c1["data"] = [v + 1.0 for v in c["data"][::-1]]
+        other = must(lambda: build_pair(c1), "building the conjugate posterior")
+        s0 = cuqi.experimental.mcmc.Conjugate(other)
+        s0.initialize()
+        with patched_global(ScriptedRNG(fallback_seed=c["seed"] + 1, record_only=True)):
+            s0.step()
+        rec.count("retargeted")
+
+        def run():
+            s0.target = target
+            s0.step()
+            return s0.current_point
+    elif c["interface"] == "experimental":
         def run():
             s = cuqi.experimental.mcmc.Conjugate(target)
             s.initialize()
